@@ -57,7 +57,7 @@ L(i) == ToString(i)
 
 WrapKinds == {"range", "rangekv", "rangeelse", "if", "ifelse", "iflet", "ifletelse", "let",
               "ycont", "ycontp", "ydef", "yctx", "yctxp", "ybody", "ybodyp", "blockdef",
-              "include", "includectx", "exec", "issetexec", "tryin", "tryincatch", "catchbody"}
+              "include", "includectx", "exec", "incif", "issetexec", "tryin", "tryincatch", "catchbody"}
 
 \* the wrappers that push interpreter state (used for the deepest enumeration)
 CoreKinds == {"range", "rangekv", "iflet", "let", "ycont", "ycontp", "yctx", "ybody", "ybodyp",
@@ -104,6 +104,8 @@ Wrap(kind, i, r) ==
     [] kind = "include"   -> Res(<<Incl(id(""), "inc" \o L(i))>>, r.ts \o <<Tm("inc" \o L(i), "", <<>>, m)>>, r.bl)
     [] kind = "includectx"-> Res(<<InclCx(id(""), "inc" \o L(i), Lit("ic" \o L(i)))>>, r.ts \o <<Tm("inc" \o L(i), "", <<>>, m)>>, r.bl)
     [] kind = "exec"      -> Res(<<ExecLet(id(""), "r", "inc" \o L(i))>>, r.ts \o <<Tm("inc" \o L(i), "", <<>>, m)>>, r.bl)
+    \* {{ includeIfExists("t") }}: rendered in place, straight to the current writer
+    [] kind = "incif"     -> Res(<<IncIf(id(""), "inc" \o L(i))>>, r.ts \o <<Tm("inc" \o L(i), "", <<>>, m)>>, r.bl)
     \* a failure below is swallowed by isset: rendering goes on as if the expression had not been evaluated
     [] kind = "issetexec" -> Res(<<IsSetExec(id(""), "ise" \o L(i))>>, r.ts \o <<Tm("ise" \o L(i), "", <<>>, m)>>, r.bl)
     [] kind = "tryin"     -> Res(<<TryS(id(""), m)>>, r.ts, r.bl)
